@@ -58,7 +58,7 @@ def violates(run, case, impl, model):
     # delivered twice, or a delivery goes elsewhere than the model's (exactly-once destination).
     return True
 
-LEVEL_TEXT = ("Proved for all op lists and all interleavings. Single-promise model: resolve_once, pipelined_exactly_once, client_idempotent, no_stuck, waiters_released, proxy_clients_resolved_and_released, result_read_alive. Model with Join (joined chains, any number of promises): exactly-once (count and destination), resolve_once per promise, mutex discipline and mu free at rest, forest invariant under the Join precondition, no deadlock on the mutexes, channel part of no_stuck and waiters_released (hook waits left open), client-table reference conservation and per-chain release. Refuted: F11, resolve deadlock, result lifetime, F11c, seeded C11-3 and C11-r2-1, self-join and cyclic join. Model tied to answer.go by synctest histories (sequenced, with Join, launch groups checked against the explored outcome set).")
-LEVEL_NOTE = "Level other. Preconditions of the chain theorems: the code as it is (resolve closes p.joined, Join allocates the client table, Join adds all clientsRefs) and the precondition of Join (a promise only joins promises of lower index; self-join and cyclic joins are refuted). Open on chains: the hook.done waits in no_stuck (alternative 2 of C11_join_no_stuck_partial), proxy targets, and the relation theorem between the two models. See docs/C11.md."
+LEVEL_TEXT = ("Proved for all op lists and all interleavings. Single-promise model: resolve_once, pipelined_exactly_once, client_idempotent, no_stuck, waiters_released, proxy_clients_resolved_and_released, result_read_alive. Model with Join (joined chains, any number of promises): exactly-once (count and destination), resolve_once per promise, mutex discipline and mu free at rest, forest invariant under the Join precondition, no deadlock on the mutexes, channel part of no_stuck and waiters_released (Fulfill-side hook wait excluded; Release-side hook wait left open), client-table reference conservation and per-chain release. Refuted: F11, resolve deadlock, result lifetime, F11c, seeded C11-3 and C11-r2-1, self-join and cyclic join. Model tied to answer.go by synctest histories (sequenced, with Join, launch groups checked against the explored outcome set).")
+LEVEL_NOTE = "Level other. Preconditions of the chain theorems: the code as it is (resolve closes p.joined, Join allocates the client table, Join adds all clientsRefs) and the precondition of Join (a promise only joins promises of lower index; self-join and cyclic joins are refuted). Open on chains: the Release-side hook.done wait in no_stuck (alternative 2 of C11_join_no_stuck_chain_partial; the Fulfill-side wait is excluded by C11_join_fulfil_never_waits_for_hook), proxy targets, and the relation theorem between the two models. See docs/C11.md."
 TECHNIQUE = "Coq proof over an executable small-step model + extracted-model/implementation differential run under synctest"
 DESIGN_REF = "DESIGN.md section 6, C11"
